@@ -58,7 +58,7 @@ fn run_proc(exe: &Path, args: &[&str], cwd: &Path) -> Result<ProcOut, String> {
     };
     let read = |p: &Path| -> String {
         let mut b = std::fs::read(p).unwrap_or_default();
-        b.truncate(1 << 20);
+        b.truncate(64 << 20);
         String::from_utf8_lossy(&b).to_string()
     };
     let stdout = read(&out_path);
@@ -267,6 +267,18 @@ pub fn worker(w: &mut Worker) {
             compare_run(w, &duck, &me, &dir, name, name, &text, form);
         }
     }
+    // long outputs and long script files (file form only: a command-line argument is limited in size)
+    for n in w.tier.pick(vec![5000usize], vec![5000usize, 100_000]) {
+        let text = format!("i = set 0\nwhile less_than ${{i}} {}\ni = calc ${{i}} + 1\necho line number ${{i}} of the output\nend\necho done", n);
+        compare_run(w, &duck, &me, &dir, &format!("long-output {}", n), "scale-long-output", &text, "file");
+        let mut lines: Vec<String> = (1..=n).map(|k| format!("echo {}", k)).collect();
+        compare_run(w, &duck, &me, &dir, &format!("long-file {}", n), "scale-long-file", &lines.join("\n"), "file");
+        lines.push("nosuchcommand at the very end".into());
+        compare_run(w, &duck, &me, &dir, &format!("long-file-failing {}", n), "scale-long-file-failing", &lines.join("\n"), "file");
+        lines.pop();
+        lines.push("echo \"unterminated".into());
+        compare_run(w, &duck, &me, &dir, &format!("long-file-unparsable {}", n), "scale-long-file-unparsable", &lines.join("\n"), "file");
+    }
     if w.tier == Tier::Thorough {
         // every exit code in a window around zero and around the multiples of 256 inside it
         for n in -600i64..=600 {
@@ -455,7 +467,7 @@ pub fn crash_sig(_case: &Value, kind: &str) -> String {
     kind.to_string()
 }
 
-pub const RULE: &str = "57 scripts (succeeding, printing, failing by crash / unknown command / missing label / assert, exit with no value, 0, 3, -1, 255, 256, 257, 512, -256, 65536, i32::MAX, i32::MIN, abc, ' 3', a value beyond i32, every parse error kind, pre-processor print and missing include, output of child processes interleaved with the script's own, exit_on_error at top level, in a function and inside a script-implemented command) x invocation form {file argument, -e text, --eval text}: the duck executable built from /repo's working tree is run as a subprocess and compared with the library run by the harness in a second subprocess (default Env): exit status 0 exactly when the library run succeeds; stdout equals the library's stdout, followed on failure by 'Error: <display of the library error>'. Lint: label x command x output each in {absent, lower-case, Capitalised, mIxed_1, non-ASCII upper-case} x {parsable, with an unparsable later line} x {-l, --lint} (thorough: the line at the end, at the start and in the middle of the file): accepted exactly when the file parses and the three spellings are lower-case, never runs the script, prints 'Error:' on rejection. --version, --help, -h: exit 0 and the documented content. Thorough tier in addition: `exit N` for every N in -600..=600, and every script of 1..4 lines over a pool of 14 lines (printing, assigning, soft error, exit_on_error, failing command, unknown command, exit / exit 2 / exit 256, failed assert, forward goto, unterminated function, unparsable line, pre-processor print) closed by a label line. Every subprocess is killed after 20 s (reported as a violation when it is duck that does not exit)";
+pub const RULE: &str = "57 scripts (succeeding, printing, failing by crash / unknown command / missing label / assert, exit with no value, 0, 3, -1, 255, 256, 257, 512, -256, 65536, i32::MAX, i32::MIN, abc, ' 3', a value beyond i32, every parse error kind, pre-processor print and missing include, output of child processes interleaved with the script's own, exit_on_error at top level, in a function and inside a script-implemented command) x invocation form {file argument, -e text, --eval text}: the duck executable built from /repo's working tree is run as a subprocess and compared with the library run by the harness in a second subprocess (default Env): exit status 0 exactly when the library run succeeds; stdout equals the library's stdout, followed on failure by 'Error: <display of the library error>'. Lint: label x command x output each in {absent, lower-case, Capitalised, mIxed_1, non-ASCII upper-case} x {parsable, with an unparsable later line} x {-l, --lint} (thorough: the line at the end, at the start and in the middle of the file): accepted exactly when the file parses and the three spellings are lower-case, never runs the script, prints 'Error:' on rejection. --version, --help, -h: exit 0 and the documented content. Thorough tier in addition: `exit N` for every N in -600..=600, and every script of 1..4 lines over a pool of 14 lines (printing, assigning, soft error, exit_on_error, failing command, unknown command, exit / exit 2 / exit 256, failed assert, forward goto, unterminated function, unparsable line, pre-processor print) closed by a label line. Scale cases (file form): a loop printing 5000 (thorough 100000) lines, a script file of that many lines, the same failing / not parsing on its last line (output and message must match to the byte). Every subprocess is killed after 20 s (reported as a violation when it is duck that does not exit)";
 pub const ASSUMPTIONS: &[&str] = &["scripts with time- or random-dependent output are not in the pool", "the reference is the same library linked into the harness (differential), so a defect shared by both is invisible here"];
 pub const EXHAUSTIVE: bool = true;
 pub const WALL_CAP_S: (u64, u64) = (58, 600);
